@@ -118,6 +118,9 @@ Extremes ==
     \cup {G(t, << <<<<9, 9>>, <<3, 3>>>>, <<<<11, 11>>, <<7, 7>>>> >>) : t \in {"MultiLineString", "Polygon"}}
     \cup {G("Polygon", << <<<<9, 9>>, <<11, 9>>, <<11, 11>>, <<9, 11>>>> >>),
           G("MultiPolygon", << <<<<<<1, 9>>, <<3, 3>>, <<7, 1>>>>>>, <<<<<<1, 11>>, <<3, 7>>, <<7, 3>>>>>> >>)}
+    (* a last vertex that equals the first as a number but not as a bit pattern (+0 there, -0 here) *)
+    \cup {G("Polygon", << <<<<1, 1>>, <<3, 1>>, <<3, 3>>, <<2, 1>>>> >>), G("LineString", << <<7, 2>>, <<3, 4>>, <<7, 1>> >>),
+          G("MultiPolygon", << <<<<<<3, 2>>, <<7, 7>>, <<3, 1>>>>>> >>), G("MultiLineString", << <<<<1, 2>>, <<3, 3>>, <<2, 1>>>> >>)}
     (* ids 12-14: values that a 32-bit float holds exactly (their shortest 64-bit decimal is long, their shortest 32-bit one short) *)
     \cup {G("Point", <<12, 13>>), G("LineString", << <<14, 12>>, <<3, 13>> >>), G("Polygon", << <<<<12, 12>>, <<13, 14>>, <<14, 3>>>> >>),
           G("MultiLineString", << <<<<13, 13>>>>, <<<<12, 3>>, <<3, 12>>>> >>), G("MultiPolygon", << <<<<<<14, 14>>, <<12, 13>>>>>> >>), G("MultiPoint", << <<12, 14>> >>)}
